@@ -1,6 +1,15 @@
 //! Generators: grammar-directed iso literals (as token lists, so that token-level mutations are
 //! easy), arbitrary strings, and lexer-biased junk.  Every choice comes from the one `Rng`.
 use hx_common::*;
+use std::cell::Cell;
+
+thread_local! {
+    /// loose = the grammar-directed generator may also pick constructs that are diagnostics
+    static LOOSE: Cell<bool> = Cell::new(false);
+}
+fn loose() -> bool {
+    LOOSE.with(|l| l.get())
+}
 
 const NAMES: &[&str] = &[
     "a", "b", "id", "name", "user", "Query", "User", "Foo", "foo_bar", "_x", "x1", "true", "false", "null", "to", "field",
@@ -9,8 +18,8 @@ const NAMES: &[&str] = &[
 
 fn name(r: &mut Rng) -> String {
     // mostly plain identifiers; the tail of the list holds keywords / a non-identifier
-    if r.chance(9, 10) {
-        r.pick(&NAMES[..13]).to_string()
+    if !loose() || r.chance(9, 10) {
+        r.pick(&NAMES[..16]).to_string()
     } else {
         r.pick(NAMES).to_string()
     }
@@ -22,7 +31,8 @@ fn type_name(r: &mut Rng) -> String {
 
 /// `\n`-containing or comma separators are what the grammar wants between selections/arguments.
 fn sep(r: &mut Rng, out: &mut Vec<String>) {
-    match r.below(20) {
+    let n = if loose() { 20 } else { 18 };
+    match r.below(n) {
         0..=7 => out.push("\n".into()),
         8..=12 => out.push(",".into()),
         13..=15 => {
@@ -37,6 +47,15 @@ fn sep(r: &mut Rng, out: &mut Vec<String>) {
 }
 
 fn int_lit(r: &mut Rng) -> String {
+    if !loose() {
+        return match r.below(8) {
+            0 => "0".into(),
+            1 => "-0".into(),
+            2 => "9223372036854775807".into(),
+            3 => "-9223372036854775808".into(),
+            _ => (r.below(100000) as i64 - 500).to_string(),
+        };
+    }
     match r.below(24) {
         0 => "0".into(),
         1 => "-0".into(),
@@ -62,7 +81,8 @@ fn int_lit(r: &mut Rng) -> String {
 }
 
 fn string_lit(r: &mut Rng) -> String {
-    let body = match r.below(12) {
+    let k = if loose() { r.below(12) } else { *r.pick(&[0usize, 1, 2, 3, 4, 5, 9, 10, 11]) };
+    let body = match k {
         0 => "".to_string(),
         1 => "it's".to_string(),
         2 => "a b".to_string(),
@@ -79,7 +99,8 @@ fn string_lit(r: &mut Rng) -> String {
 }
 
 fn block_string(r: &mut Rng) -> String {
-    let body = match r.below(10) {
+    let k = if loose() { r.below(10) } else { *r.pick(&[0usize, 1, 2, 3, 4, 7, 8, 9]) };
+    let body = match k {
         0 => "".to_string(),
         1 => "one line".to_string(),
         2 => "\n    indented\n      more\n    back\n  ".to_string(),
@@ -95,7 +116,8 @@ fn block_string(r: &mut Rng) -> String {
 }
 
 fn value(r: &mut Rng, depth: usize, out: &mut Vec<String>) {
-    match r.below(16) {
+    let k = if loose() { r.below(16) } else { *r.pick(&[0usize, 1, 2, 3, 4, 5, 6, 7, 8, 9, 10, 11, 14, 15]) };
+    match k {
         0..=3 => {
             out.push("$".into());
             out.push(name(r))
@@ -124,6 +146,23 @@ fn value(r: &mut Rng, depth: usize, out: &mut Vec<String>) {
     }
 }
 
+/// a value without variables (default values)
+fn const_value(r: &mut Rng, depth: usize, out: &mut Vec<String>) {
+    let start = out.len();
+    value(r, depth, out);
+    if !loose() {
+        // replace `$ name` pairs by a literal
+        let mut i = start;
+        while i < out.len() {
+            if out[i] == "$" {
+                out[i] = "1".into();
+                out.remove(i + 1);
+            }
+            i += 1;
+        }
+    }
+}
+
 fn arguments(r: &mut Rng, out: &mut Vec<String>) {
     out.push("(".into());
     let n = r.below(4);
@@ -138,7 +177,21 @@ fn arguments(r: &mut Rng, out: &mut Vec<String>) {
     out.push(")".into());
 }
 
-fn directives(r: &mut Rng, selection: bool, out: &mut Vec<String>) {
+fn directives(r: &mut Rng, selection: bool, object: bool, out: &mut Vec<String>) {
+    if selection && !loose() {
+        // what the selection directive sets accept
+        match r.below(12) {
+            0 if !object => out.extend(["@".to_string(), "loadable".to_string()]),
+            1 if !object => {
+                out.extend(["@", "loadable", "(", "lazyLoadArtifact", ":"].iter().map(|s| s.to_string()));
+                out.push(r.pick(&["true", "false"]).to_string());
+                out.push(")".into());
+            }
+            2 => out.extend(["@".to_string(), "updatable".to_string()]),
+            _ => {}
+        }
+        return;
+    }
     let n = match r.below(10) {
         0..=6 => 0,
         7..=8 => 1,
@@ -180,7 +233,7 @@ fn type_annotation(r: &mut Rng, depth: usize, out: &mut Vec<String>) {
     if depth > 0 && r.chance(1, 3) {
         out.push("[".into());
         type_annotation(r, depth - 1, out);
-        if !r.chance(1, 25) {
+        if !(loose() && r.chance(1, 25)) {
             out.push("]".into());
         }
     } else {
@@ -201,11 +254,11 @@ fn variable_definitions(r: &mut Rng, out: &mut Vec<String>) {
         type_annotation(r, 3, out);
         if r.chance(1, 3) {
             out.push("=".into());
-            if r.chance(1, 10) {
+            if loose() && r.chance(1, 10) {
                 out.push("$".into());
                 out.push("v".into());
             } else {
-                value(r, 2, out);
+                const_value(r, 2, out);
             }
         }
         if i + 1 < n || r.chance(1, 3) {
@@ -228,7 +281,7 @@ fn selection_set(r: &mut Rng, depth: usize, out: &mut Vec<String>) {
         _ => 5,
     };
     for _ in 0..n {
-        if r.chance(1, 40) {
+        if loose() && r.chance(1, 40) {
             out.push("...".into()); // fragment spread: diagnostic
         }
         if r.chance(1, 6) {
@@ -239,8 +292,9 @@ fn selection_set(r: &mut Rng, depth: usize, out: &mut Vec<String>) {
         if r.chance(1, 4) {
             arguments(r, out);
         }
-        directives(r, true, out);
-        if depth > 0 && r.chance(1, 3) {
+        let object = depth > 0 && r.chance(1, 3);
+        directives(r, true, object, out);
+        if object {
             selection_set(r, depth - 1, out);
         }
         sep(r, out);
@@ -255,6 +309,7 @@ fn description(r: &mut Rng, out: &mut Vec<String>) {
 }
 
 pub fn literal_tokens(r: &mut Rng) -> Vec<String> {
+    LOOSE.with(|l| l.set(r.chance(1, 4)));
     let mut out = vec![];
     let depth = *r.pick(&[0usize, 1, 1, 2, 2, 3, 4, 6]);
     match r.below(10) {
@@ -266,9 +321,9 @@ pub fn literal_tokens(r: &mut Rng) -> Vec<String> {
             if r.chance(1, 3) {
                 variable_definitions(r, &mut out);
             }
-            directives(r, false, &mut out);
+            directives(r, false, false, &mut out);
             description(r, &mut out);
-            if !r.chance(1, 30) {
+            if !(loose() && r.chance(1, 30)) {
                 selection_set(r, depth, &mut out);
             }
         }
@@ -280,11 +335,11 @@ pub fn literal_tokens(r: &mut Rng) -> Vec<String> {
             if r.chance(1, 3) {
                 variable_definitions(r, &mut out);
             }
-            out.push(if r.chance(19, 20) { "to".into() } else { name(r) });
+            out.push(if !loose() || r.chance(19, 20) { "to".into() } else { name(r) });
             type_annotation(r, 3, &mut out);
-            directives(r, false, &mut out);
+            directives(r, false, false, &mut out);
             description(r, &mut out);
-            if !r.chance(1, 30) {
+            if !(loose() && r.chance(1, 30)) {
                 selection_set(r, depth, &mut out);
             }
         }
@@ -293,8 +348,8 @@ pub fn literal_tokens(r: &mut Rng) -> Vec<String> {
             out.push(type_name(r));
             out.push(".".into());
             out.push(name(r));
-            directives(r, false, &mut out);
-            if r.chance(1, 12) {
+            directives(r, false, false, &mut out);
+            if loose() && r.chance(1, 12) {
                 selection_set(r, 1, &mut out);
             }
         }
